@@ -43,6 +43,16 @@ pub fn operand_pool() -> &'static Vec<String> {
         for s in ["10000000000000001.5", "9007199254740993.5", "18014398509481986.25", "9007199254740993.0000000000000000000000001", "0.1000000000000000055511151231257827021181583404541015625", "00000000000000000000000002.50", "1.00000000000000011102230246251565404236316680908203125", "1.00000000000000011102230246251565404236316680908203126"] {
             v.push(s.to_string());
         }
+        // leading-dot spellings of tiny values with 20..30 fractional digits and few significant ones
+        for frac in [20usize, 22, 23, 24, 25, 28, 30] {
+            for d in ["1", "1602176634", "242631023867", "66743", "91093837015", "5"] {
+                if d.len() <= frac {
+                    v.push(format!(".{}{}", "0".repeat(frac - d.len()), d));
+                }
+            }
+        }
+        v.push(format!(".{}1", "0".repeat(309)));
+        v.push(format!(".{}1", "0".repeat(322)));
         // literals that overflow / underflow while lexing
         v.push("9".repeat(400));
         v.push(format!("1{}", "0".repeat(308)));
@@ -98,8 +108,8 @@ fn binary_cases() -> &'static Vec<String> {
 fn idiom_cases() -> &'static Vec<String> {
     static CELL: OnceLock<Vec<String>> = OnceLock::new();
     CELL.get_or_init(|| {
-        let t = ["sqrt(X^2+Y^2)", "sqrt(X²+Y²)", "sqrt(pow(X,2)+pow(Y,2))", "sqrt(X*X+Y*Y)", "(X^2+Y^2)^0.5", "sqrt(X^2-Y^2)", "X*Y+Z", "Z+X*Y", "X*Y-Z", "(X+Y)/2", "X/Y*Y", "X*Y/Y", "X-X+Y", "sqrt(X)^2", "sqrt(X^2)", "abs(X)^2", "X^0.5", "X^(1/2)", "X^(0-1)", "1/(1/X)", "X*pi/180", "X/180*pi", "X*180/pi", "pi*X/180", "X*e/e", "X^2^0.5", "X%Y+Y", "mod(X,Y)*Y", "floor(X/Y)*Y+X%Y", "trunc(X/Y)", "round(X*Y)/Y", "X*0.5", "X/2", "X+X", "2*X", "X*X*X", "X^3", "X^2*X", "-X+Y", "Y-X", "-(X-Y)", "X*(0-1)", "abs(X-Y)", "ceil(X-0.5)", "floor(X+0.5)"];
-        let xs = ["0.1", "0.4", "3", "4", "0.7", "19", "57", "23", "1.5", "(0-2.5)", "@", "123456789.125", "0.3", "9007199254740993", "6", "12"];
+        let t = ["sqrt(X^2+Y^2)", "sqrt(X²+Y²)", "sqrt(pow(X,2)+pow(Y,2))", "sqrt(X*X+Y*Y)", "(X^2+Y^2)^0.5", "sqrt(X^2-Y^2)", "X*Y+Z", "Z+X*Y", "X*Y-Z", "(X+Y)/2", "X/Y*Y", "X*Y/Y", "X-X+Y", "sqrt(X)^2", "sqrt(X^2)", "abs(X)^2", "X^0.5", "X^(1/2)", "X^(0-1)", "1/(1/X)", "X*pi/180", "X/180*pi", "X*180/pi", "pi*X/180", "X*e/e", "X^2^0.5", "X%Y+Y", "mod(X,Y)*Y", "floor(X/Y)*Y+X%Y", "trunc(X/Y)", "round(X*Y)/Y", "X*0.5", "X/2", "X+X", "2*X", "X*X*X", "X^3", "X^2*X", "-X+Y", "Y-X", "-(X-Y)", "X*(0-1)", "abs(X-Y)", "ceil(X-0.5)", "floor(X+0.5)", "X*3-Y*9", "X*X-4*Y*0.25", "X*Y-Y*X", "X*3-Y*9+1", "X*0.7-Y*0.49", "X*Y+Y*X", "X/3-Y/9", "X*Y-0.49"];
+        let xs = ["0.1", "0.4", "3", "4", "0.7", "19", "57", "23", "1.5", "(0-2.5)", "@", "123456789.125", "0.3", "9007199254740993", "6", "12", "33.3", "11.1", "1.1", "0.49"];
         let zs = ["0.2", "@", "7"];
         let mut v = Vec::new();
         for f in t {
